@@ -39,6 +39,13 @@ type c18Case struct {
 	// included, arrive in pieces. Pings: the peer sends a Ping before each message.
 	MaxRead int
 	Pings   bool
+	// SplitHeader > 0: the first SplitHeader bytes of the header of every message's first
+	// frame arrive 50 ms before the rest, and this side's k-th Write happens in the middle
+	// of the k-th such gap: a Read parked inside a frame header while the connection writes.
+	SplitHeader int
+	// Early (server role): the first message arrives in the same segment as the handshake
+	// request (a client that does not wait), or only its first Early bytes do.
+	Early int
 }
 
 var c18Sizes = []int{0, 0, 1, 2, 100, 125, 126, 4095, 4096, 4097, 20000, 65535, 65536, 70000}
@@ -63,6 +70,12 @@ func genC18(rt *rapid.T) c18Case {
 	c.WrongAt = rapid.IntRange(0, len(c.In)).Draw(rt, "wrongAt")
 	c.MaxRead = rapid.SampledFrom([]int{0, 0, 0, 1, 2, 7}).Draw(rt, "maxRead")
 	c.Pings = rapid.Bool().Draw(rt, "peerPings")
+	if !c.Mode.Client && len(c.In) > 0 && !(c.Ending == "wrong-type" && c.WrongAt == 0) && rapid.IntRange(0, 2).Draw(rt, "early") == 0 {
+		c.Early = rapid.SampledFrom([]int{1, 2, 7, 1 << 20}).Draw(rt, "earlyBytes")
+	}
+	if rapid.IntRange(0, 2).Draw(rt, "splitHeaders") == 0 {
+		c.SplitHeader = rapid.IntRange(1, 13).Draw(rt, "splitHeaderAt")
+	}
 	if len(c.Out) == 0 && strings.HasPrefix(c.Ending, "close-") {
 		c.Hangup = rapid.Bool().Draw(rt, "hangup")
 		if c.Hangup {
@@ -91,7 +104,18 @@ func runC18Stream(t fataler, c c18Case) (string, c18Result) {
 	var res c18Result
 	e := newEnv(t)
 	defer e.Teardown()
-	lc, err := e.open(connSpec{Client: c.Mode.Client, Mode: c.Mode.Mode, Ext: c.Mode.Ext})
+	spec := connSpec{Client: c.Mode.Client, Mode: c.Mode.Mode, Ext: c.Mode.Ext}
+	var late []byte // the part of the first message that does not come with the request
+	if c.Early > 0 {
+		op0 := byte(ref.OpBinary)
+		if c.Text {
+			op0 = ref.OpText
+		}
+		_, b, _ := finishMasking([]ref.Frame{{Fin: true, Opcode: op0, Payload: expand(ckRandom, 11, c.In[0])}}, false)
+		k := min(c.Early, len(b))
+		spec.Pipelined, late = b[:k], b[k:]
+	}
+	lc, err := e.open(spec)
 	if err != nil {
 		return "handshake: " + err.Error(), res
 	}
@@ -130,7 +154,15 @@ func runC18Stream(t fataler, c c18Case) (string, c18Result) {
 			if j == 0 {
 				f.Opcode, f.Rsv1 = opcode, comp
 			}
-			p.send(f)
+			if j == 0 && c.SplitHeader > 0 {
+				b := p.prep(f).Encode()
+				k := min(c.SplitHeader, len(b)-len(f.Payload)-1)
+				p.sendRaw(b[:k])
+				e.sleep(50 * time.Millisecond)
+				p.sendRaw(b[k:])
+			} else {
+				p.send(f)
+			}
 			off = end
 		}
 	}
@@ -140,6 +172,10 @@ func runC18Stream(t fataler, c c18Case) (string, c18Result) {
 				break
 			}
 			pl := expand(ckRandom, uint64(i)+11, n)
+			if i == 0 && c.Early > 0 {
+				p.sendRaw(late)
+				continue
+			}
 			if c.Pings {
 				p.send(ref.Frame{Fin: true, Opcode: ref.OpPing, Payload: []byte("ping!")})
 			}
@@ -181,6 +217,9 @@ func runC18Stream(t fataler, c c18Case) (string, c18Result) {
 	var werr error
 	wdone := e.Call(func() {
 		for _, b := range wantOut {
+			if c.SplitHeader > 0 {
+				e.sleep(10 * time.Millisecond)
+			}
 			keep := append([]byte(nil), b...)
 			n, err := nc.Write(b)
 			if err != nil {
@@ -190,6 +229,9 @@ func runC18Stream(t fataler, c c18Case) (string, c18Result) {
 			if n != len(b) || !bytes.Equal(b, keep) {
 				werr = fmt.Errorf("Write returned %d for %d bytes or modified the buffer", n, len(b))
 				return
+			}
+			if c.SplitHeader > 0 {
+				e.sleep(40 * time.Millisecond)
 			}
 		}
 	})
@@ -292,7 +334,7 @@ func runC18Stream(t fataler, c c18Case) (string, c18Result) {
 
 func TestC18(t *testing.T) {
 	rec := evid.For("C18")
-	rec.Rule = "stream: rapid draws inbound message sizes (0..70000, boundary-biased, fragmented, alternately compressed by every foreign deflater variant incl. BFINAL=1 endings, optionally each preceded by a Ping, the transport delivering at most 1/2/7 bytes per read or everything at once) against cycled Read buffer sizes (1..100000), Write sizes, message type, role/compression, and an ending {peer Close 1000, 1001, another code or empty - with the peer waiting for the echo or hanging up right behind its Close frame -, transport EOF, transport reset, a message of the wrong type at a drawn position}; deadlines: rapid-drawn scripts of SetReadDeadline/SetWriteDeadline/SetDeadline (past, future, zero) before, between and during calls on the fake clock. Non-trivial: a read buffer smaller than a message (message spans several reads), or an idle expiry followed by a reset and further traffic. distinct = hash of the case."
+	rec.Rule = "stream: rapid draws inbound message sizes (0..70000, boundary-biased, fragmented, alternately compressed by every foreign deflater variant incl. BFINAL=1 endings, optionally each preceded by a Ping, on servers optionally the first message or its first 1/2/7 bytes arriving in the segment of the handshake request, optionally the header of every message's first frame arriving in two pieces 50 ms apart with one of this side's Writes in the gap, the transport delivering at most 1/2/7 bytes per read or everything at once) against cycled Read buffer sizes (1..100000), Write sizes, message type, role/compression, and an ending {peer Close 1000, 1001, another code or empty - with the peer waiting for the echo or hanging up right behind its Close frame -, transport EOF, transport reset, a message of the wrong type at a drawn position}; deadlines: rapid-drawn scripts of SetReadDeadline/SetWriteDeadline/SetDeadline (past, future, zero) before, between and during calls on the fake clock. Non-trivial: a read buffer smaller than a message (message spans several reads), or an idle expiry followed by a reset and further traffic. distinct = hash of the case."
 	rapid.Check(t, func(rt *rapid.T) {
 		c := genC18(rt)
 		var msg string
